@@ -19,6 +19,12 @@ func (p *errPay) Clone() Payload { q := *p; return &q }
 // errorPropagates interprets fd with every call of a source (isSource) returning a non-nil error in its last
 // result. It gives the descriptions of the paths whose own last result is not known to be non-nil.
 func (c *Ctx) errorPropagates(fd *ast.FuncDecl, isSource func(callee types.Object) bool) (bad []string, sources int, undecided []string) {
+	bad, _, sources, undecided = c.errorPropagatesFull(fd, isSource)
+	return
+}
+
+// errorPropagatesFull also lists the non-error results that are not nil / zero on the failing paths.
+func (c *Ctx) errorPropagatesFull(fd *ast.FuncDecl, isSource func(callee types.Object) bool) (bad, withResults []string, sources int, undecided []string) {
 	var h Hooks
 	isTag := func(v Value, t string) bool { return v.K == vTag && v.Tag == t }
 	h.Inline = func(fn *types.Func) bool {
@@ -102,8 +108,16 @@ func (c *Ctx) errorPropagates(fd *ast.FuncDecl, isSource func(callee types.Objec
 		if !isTag(v, "errv") {
 			bad = append(bad, fmt.Sprintf("a path on which the inner call failed returns %s as its error (trace %v)", v, vs.st.Trace))
 		}
+		// the other results on such a path
+		if vs.v.K == vTuple {
+			for i, rv := range vs.v.Tup[:len(vs.v.Tup)-1] {
+				if !(isTag(rv, "nil") || (rv.K == vConst)) {
+					withResults = append(withResults, fmt.Sprintf("result #%d is %s", i+1, rv))
+				}
+			}
+		}
 	}
-	return dedupe(bad), sources, in.Undecided
+	return dedupe(bad), dedupe(withResults), sources, in.Undecided
 }
 
 // ruleLoadErrorReturned (C13): LoadProg hands Load's error to its caller.
